@@ -30,6 +30,8 @@ func c18Stream(rng *rand.Rand, fileType int) *Stream {
 	s.Def(12, arch, 19, []FieldDef{{13, 2, 0x84}, {110, 4, 0x86}, {43, 2, 0x84}, {114, 4, 0x86}}, nil) // lap
 	s.Def(13, arch, 18, []FieldDef{{14, 2, 0x84}, {124, 4, 0x86}, {71, 2, 0x84}, {127, 4, 0x86}}, nil) // session
 	s.Def(14, arch, 142, []FieldDef{{34, 2, 0x84}, {91, 4, 0x86}, {54, 2, 0x84}, {93, 4, 0x86}}, nil)  // segment_lap
+	// the compressed field followed by other fields of the same record (and preceded by one)
+	s.Def(15, arch, 20, []FieldDef{{3, 1, 2}, {8, 3, 0x0D}, {4, 1, 2}, {7, 2, 0x84}, {13, 1, 1}}, nil)
 	dist := rng.Intn(4096)
 	cyc := rng.Intn(256)
 	pow := rng.Intn(65536)
@@ -49,7 +51,11 @@ func c18Stream(rng *rand.Rand, fileType int) *Stream {
 			if rng.Intn(15) == 0 {
 				b = []byte{0xFF, 0xFF, 0xFF}
 			}
-			s.Data(2, b)
+			if rng.Intn(3) == 0 {
+				s.Data(15, append(append([]byte{byte(60 + rng.Intn(100))}, b...), append([]byte{byte(rng.Intn(200))}, append(u16(rng.Intn(1000)), byte(rng.Intn(60)))...)...))
+			} else {
+				s.Data(2, b)
+			}
 		case 3, 4:
 			cyc = (cyc + rng.Intn(90)) % 256
 			pow = (pow + rng.Intn(20000)) % 65536
